@@ -182,10 +182,12 @@ PROPS['C03'] = dict(
 def _c05(tier, seed):
     jobs = J('c05.cpp', 'optim', 'spqlios-fma', n=6, args=['part=single']) + J('c05.cpp', 'optim', 'spqlios-fma', n=6, args=['part=history'])
     jobs += J('c05.cpp', 'asan-debug', 'nayuki-portable', n=4, args=['part=single'])
+    jobs += J('c05.cpp', 'optim', 'fftw', n=8, args=['part=reals'])
     if tier == 'thorough':
         jobs = J('c05.cpp', 'optim', 'spqlios-fma', n=8, args=['part=single'], deadline=2400, timeout=3000) + J('c05.cpp', 'optim', 'spqlios-fma', n=8, args=['part=history'])
         jobs += J('c05.cpp', 'asan-debug', 'nayuki-portable', n=6, args=['part=single', 'fullkeys=0'])
         jobs += J('c05.cpp', 'debug', 'fftw', n=4, args=['part=history'])
+        jobs += J('c05.cpp', 'optim', 'fftw', n=16, args=['part=reals'], deadline=2400, timeout=3000)
     return jobs
 PROPS['C05'] = dict(
     technique='exhaustive enumeration of object type x parameter/content alphabets x transport x concatenation histories (all ordered pairs/triples); byte-exact round-trip oracle',
